@@ -119,6 +119,10 @@ func (pk PublicKey) ValidateCiphertexts(cts ...*Ciphertext) bool {
 		if ct == nil || ct.c == nil {
 			return false
 		}
+		// the comparison and the unit test below cost time in the ANNOUNCED size of the value: refuse zero-padded encodings
+		if ct.c.AnnouncedLen() > 4*8*params.BytesCiphertext {
+			return false
+		}
 		_, _, lt := ct.c.CmpMod(pk.nSquared.Modulus)
 		if lt != 1 {
 			return false
